@@ -11,6 +11,17 @@ pub struct UnwindEvent {
     /// The top stack entry still held its active strand (and so the
     /// strand was put back into its table).
     pub top_strand_restored: bool,
+    /// The strand that was in flight during the interrupted step was
+    /// returned to its table by `Drop`.
+    pub in_flight_restored: bool,
+}
+
+thread_local! {
+    static IN_FLIGHT_RESTORED: std::cell::Cell<bool> = const { std::cell::Cell::new(false) };
+}
+
+pub(crate) fn note_in_flight(restored: bool) {
+    IN_FLIGHT_RESTORED.with(|c| c.set(restored));
 }
 
 thread_local! {
@@ -22,6 +33,7 @@ pub(crate) fn note_unwind(panicking: bool, top_strand_restored: bool) {
         l.borrow_mut().push(UnwindEvent {
             panicking,
             top_strand_restored,
+            in_flight_restored: IN_FLIGHT_RESTORED.with(|c| c.replace(false)),
         })
     });
 }
